@@ -139,6 +139,7 @@ CHECKS = {
         "from_be_slice / from_le_slice return Some(v) exactly when the byte string denotes a representable value, and the endianness helpers reverse the byte order exactly when the target's endianness differs (little-endian half; the nightly *_bytes methods are checked by the companion binary when the nightly toolchain builds the crate).",
         "DESIGN.md section 5 C15",
         NOTE_MODEL + "; the big-endian half of the to_be/from_be sentence cannot be executed on this target and is not claimed",
+        extra={"nightly_bin": "c15n"},
     ),
     "C16": core(
         "c16",
